@@ -201,4 +201,78 @@ theorem mix_dash_base_is_first_line (fr sp l : String) (cs : List String) (rest 
   | none => rw [colorFromArg_bad _ rest hl hp]
   | some b => rw [colorFromArg_ok _ b rest hl hp]
 
+/-! ### The collecting commands and `paint` -/
+
+/-- For the commands that collect their colours first (`sort-by`): colours on stdin, one per line,
+are treated like the same colours given as `-` arguments. -/
+theorem collect_stdin_like_dashes :
+    ∀ (lines : List StdinLine), collectStdin lines = collectArgs (lines.map fun _ => "-") lines := by
+  intro lines
+  induction lines with
+  | nil => simp [collectStdin, collectArgs]
+  | cons l ls ih =>
+    simp only [List.map_cons]
+    unfold collectStdin collectArgs
+    have hdash : colorFromArg "-" (l :: ls) = colorFromStdin (l :: ls) := by simp [colorFromArg]
+    rw [hdash]
+    cases l with
+    | invalidUtf8 => simp [colorFromStdin]
+    | text t =>
+      simp only [colorFromStdin]
+      generalize P.parseColor (String.ofList (P.trim t.toList)).toList = r
+      cases r with
+      | none => rfl
+      | some c => simp only [ih]
+
+/-- Hence `pastel sort-by K` on a non-empty stdin equals `pastel sort-by K - - … -` on the same stdin. -/
+theorem sort_stdin_like_dashes (order u r : String) (l : StdinLine) (ls : List StdinLine) :
+    run "sort-by" [order, u, r] [] (l :: ls) = run "sort-by" [order, u, r] ((l :: ls).map fun _ => "-") (l :: ls) := by
+  have hrun : ∀ cs st, run "sort-by" [order, u, r] cs st = runSort [order, u, r] cs st := by
+    intro cs st
+    unfold run
+    simp only [show ("sort-by" = "mix") = False by decide, show ("sort-by" = "gray") = False by decide,
+      show ("sort-by" = "gradient") = False by decide, if_false, if_true]
+  rw [hrun, hrun]
+  unfold runSort
+  simp only [List.isEmpty_nil, List.map_cons, List.isEmpty_cons, if_true, Bool.false_eq_true, if_false]
+  rw [collect_stdin_like_dashes (l :: ls)]
+  simp only [List.map_cons]
+
+/-- **`paint` with colour off prints the text byte for byte**: once the foreground (a colour, `-`
+or `default`) and the optional background are accepted, the words are joined by single blanks and
+printed unchanged, with a line end unless `--no-newline` is given. -/
+theorem paint_text_verbatim (fg bg : String) (words : List String) (stdin : List StdinLine)
+    (hfg : String.ofList (P.trim fg.toList) = "default" ∨ ∃ c s', colorFromArg fg stdin = (.ok c, s'))
+    (hbg : bg = "" ∨ ∃ c, P.parseColor bg.toList = some c) :
+    run "paint" [fg, bg, "0"] words stdin = { lines := [" ".intercalate words], err := none } ∧
+    run "paint" [fg, bg, "1"] words stdin = { lines := [], err := none, tail := " ".intercalate words } := by
+  have hrun : ∀ nn, run "paint" [fg, bg, nn] words stdin = runPaint [fg, bg, nn] words stdin := by
+    intro nn
+    unfold run
+    simp only [show ("paint" = "mix") = False by decide, show ("paint" = "gray") = False by decide,
+      show ("paint" = "gradient") = False by decide, show ("paint" = "sort-by") = False by decide, if_false, if_true]
+  have key : ∀ nn, runPaint [fg, bg, nn] words stdin =
+      (if nn = "1" then { lines := [], err := none, tail := " ".intercalate words } else { lines := [" ".intercalate words], err := none }) := by
+    intro nn
+    unfold runPaint
+    simp only []
+    by_cases hd : String.ofList (P.trim fg.toList) = "default"
+    · simp only [hd, if_true]
+      rcases hbg with h | ⟨c, h⟩
+      · simp only [h, if_true]
+      · by_cases hb : bg = ""
+        · simp only [hb, if_true]
+        · simp only [hb, if_false, h]
+    · rcases hfg with h | ⟨c, s', h⟩
+      · exact absurd h hd
+      · simp only [hd, if_false, h]
+        rcases hbg with h | ⟨c, h⟩
+        · simp only [h, if_true]
+        · by_cases hb : bg = ""
+          · simp only [hb, if_true]
+          · simp only [hb, if_false, h]
+  constructor
+  · rw [hrun, key]; simp
+  · rw [hrun, key]; simp
+
 end Pastel.C19
